@@ -9,7 +9,7 @@ from kdrv import OT, AT
 
 M = enums.CryptographicUsageMask
 A = enums.CryptographicAlgorithm
-USERS = [('alice', None), ('bob', None), ('alice', ['g1']), ('carol', ['g1', 'g2'])]
+USERS = [('alice', None)] * 7 + [('bob', None), ('alice', ['g1']), ('carol', ['g1', 'g2'])]
 
 
 class State:
